@@ -624,8 +624,14 @@ void parallel_for(
         static_cast<ssize_t>(maxThreads),
         options.wait,
         options.reuseExistingState,
-        granularity);
-    runTail();
+        granularity,
+        // With wait=false every chunk runs asynchronously, so the caller must not run the
+        // sub-granularity tail itself (it would use states.begin() concurrently with chunk 0 and run
+        // beside maxThreads scheduled chunks): the last scheduled chunk absorbs the tail instead.
+        (!options.wait && hasTail) ? range.end : parRange.end);
+    if (options.wait) {
+      runTail();
+    }
     return;
   }
 
